@@ -57,7 +57,10 @@ def check_subsystem(ctx, side, res, msg, plant, case, where, model):
             ctx.fail("predicate", "figure-differs", f"{side}: {nme}: message {getattr(msg, nme)} result {v}", where)
     if not close(msg.duration_s, obs["duration"] or 0.0):
         ctx.fail("predicate", "figure-differs", f"{side}: duration {msg.duration_s} vs {obs['duration']}", where)
-    mf = {(f.fuel_type, f.fuel_origin, f.fuel_specified_by): f.mass_or_mass_fraction for f in msg.multi_fuel_consumption_total_kg.fuels}
+    # a record may list one kind twice (main and pilot fuel of the same kind): masses per kind
+    mf = c19.as_map([[f.fuel_type, f.fuel_origin, f.fuel_specified_by, f.mass_or_mass_fraction] for f in msg.multi_fuel_consumption_total_kg.fuels])
+    if len(msg.multi_fuel_consumption_total_kg.fuels) != len(obs["fuel"]):
+        ctx.fail("predicate", "fuel-entries-differ", f"{side}: {len(msg.multi_fuel_consumption_total_kg.fuels)} fuel entries in the message, {len(obs['fuel'])} in the result", where)
     rf = c19.as_map(obs["fuel"])
     if set(mf) != set(rf) or not all(close(mf[k], rf[k], scale=1.0) for k in rf):
         ctx.fail("predicate", "fuel-per-kind-differs", f"{side}: message {mf} result {rf}", where)
